@@ -76,6 +76,15 @@ func TestSim(t *testing.T) {
 			}
 			mark(fmt.Sprintf("BEGIN %d", idx))
 			cr := runOne(t, c)
+			if idx%25 == 7 && len(cr.Violations) == 0 {
+				// sampled determinism self-check: the same case once more in
+				// this process must give the same event log
+				again := runOne(t, GenCase(prop, tier, base, idx))
+				cr.Counters["selfcheck.repeated"] = 1
+				if again.EventHash != cr.EventHash || len(again.Violations) != 0 {
+					cr.Counters["selfcheck.diverged"] = 1
+				}
+			}
 			if k < 3 {
 				cr.Sample = sampleOf(c)
 			}
